@@ -454,7 +454,8 @@ func scripted() {
 	e.fetch("p/q")
 	e.close()
 
-	// 6. the key "." (valid for filepath.Localize): the object is the backend directory itself
+	// 6. the key "." (valid for filepath.Localize, rejected by localizeKey since the fix "local
+	// backend must not accept the key \".\""): every operation is a bad-key error, nothing changes
 	e = reset(true)
 	e.up(".", lit([]byte("dot")), false)
 	e.up(".", lit([]byte("dot")), true)
@@ -783,22 +784,19 @@ func monReaders(r *rand.Rand, writes int, readers int) {
 
 // for every key for which Upload succeeds the resulting file is strictly inside the directory,
 // and nothing else appears in the scratch root (which holds a decoy sibling).
-// The key "." is exercised separately (differential group 6; see checks/c13.py).
+// The key "." is part of the key set (it must be rejected; see also mon_dot_key).
 func monConfine(r *rand.Rand, n int) {
 	e := newEnv(true)
 	defer e.close()
 	os.WriteFile(filepath.Join(e.root, "sibling"), []byte("decoy"), 0644)
 	keys := append(append([]string{}, badKeys...), oddKeys...)
-	keys = append(keys, "../sibling", "store/../../sibling", "..\\sibling", "../store/x", "/etc/passwd", "a/../../sibling",
+	keys = append(keys, ".", "../sibling", "store/../../sibling", "..\\sibling", "../store/x", "/etc/passwd", "a/../../sibling",
 		"\x00../sibling", "a/\x00/../..", "%2e%2e/sibling", "..%2fsibling", "．．/sibling", "a/../b", "x/./y")
 	for i := 0; i < n; i++ {
 		keys = append(keys, genKey(r, keys))
 	}
 	succ := 0
 	for i, k := range keys {
-		if k == "." {
-			continue
-		}
 		data := []byte(fmt.Sprintf("confine %d", i))
 		err := e.b.Upload(e.ctx, k, data, opts(i%3 == 0))
 		res := "holds"
@@ -836,6 +834,68 @@ func monConfine(r *rand.Rand, n int) {
 		}
 	}
 	emit("mon_confine", fmt.Sprintf("all|%d|%d", len(keys), succ), "holds")
+}
+
+// the key "." names the backend directory itself: Upload, Fetch and Discard must refuse it, and
+// nothing may be created next to, or instead of, the directory (fixed in /repo by "local backend
+// must not accept the key \".\""; the old behaviour is theorem C13_prefix_confined_dot_refuted)
+func monDotKey() {
+	for _, mk := range []bool{true, false} {
+		e := newEnv(mk)
+		if mk {
+			os.WriteFile(filepath.Join(e.dir, "k"), []byte("object"), 0644)
+		}
+		res := "holds"
+		check := func(what string) {
+			if res != "holds" {
+				return
+			}
+			ents, _ := os.ReadDir(e.root)
+			var names []string
+			for _, x := range ents {
+				names = append(names, x.Name())
+			}
+			want := ""
+			if mk {
+				want = "store"
+			}
+			if strings.Join(names, ",") != want {
+				res = "FAILS:C13-dot-key " + what + " changed the parent of the backend directory: " + hx([]byte(strings.Join(names, ",")))
+				return
+			}
+			if mk {
+				fi, err := os.Lstat(e.dir)
+				if err != nil || !fi.IsDir() {
+					res = "FAILS:C13-dot-key " + what + " removed or replaced the backend directory"
+				} else if b, err := os.ReadFile(filepath.Join(e.dir, "k")); err != nil || string(b) != "object" {
+					res = "FAILS:C13-dot-key " + what + " damaged an object"
+				}
+			}
+		}
+		for _, imm := range []bool{false, true} {
+			if err := e.b.Upload(e.ctx, ".", []byte("dot"), opts(imm)); err == nil {
+				res = "FAILS:C13-dot-key Upload(\".\") accepted (immutable=" + b2i(imm) + ")"
+			}
+			check("Upload")
+		}
+		if _, err := e.b.Fetch(e.ctx, "."); err == nil {
+			res = "FAILS:C13-dot-key Fetch(\".\") accepted"
+		}
+		check("Fetch")
+		if mk {
+			os.Remove(filepath.Join(e.dir, "k")) // an empty directory is what Discard used to remove
+		}
+		if err := e.b.Discard(e.ctx, "."); err == nil && res == "holds" {
+			res = "FAILS:C13-dot-key Discard(\".\") accepted"
+		}
+		if mk && res == "holds" {
+			if fi, err := os.Lstat(e.dir); err != nil || !fi.IsDir() {
+				res = "FAILS:C13-dot-key Discard removed the backend directory"
+			}
+		}
+		emit("mon_dot_key", "mkdir="+b2i(mk), res)
+		e.close()
+	}
 }
 
 // ---------------------------------------------------------------------------------------------
@@ -1084,4 +1144,5 @@ func main() {
 	monImmutable(r, rounds)
 	monReaders(r, writes, 8)
 	monConfine(r, 200)
+	monDotKey()
 }
